@@ -6,6 +6,7 @@ CONSTANTS
   StoreMode = "store"
   HitMode = "identity"
   Random = TRUE
+  FbMode = "faithful"
 INIT Init
 NEXT Next
 INVARIANT Accepted
